@@ -64,10 +64,10 @@ Proof. unfold qmul. split; [apply Qred_canonical | apply Qred_correct]. Qed.
 Theorem qneg_spec a : canonical (qneg a) /\ (qneg a == - a)%Q.
 Proof. unfold qneg. split; [apply Qred_canonical | apply Qred_correct]. Qed.
 Theorem qdiv_spec a b :
-  (b == 0 -> qdiv a b = None) /\
-  (~ b == 0 -> exists q, qdiv a b = Some q /\ canonical q /\ (q * b == a)%Q).
+  (b == 0 -> qdivide a b = None) /\
+  (~ b == 0 -> exists q, qdivide a b = Some q /\ canonical q /\ (q * b == a)%Q).
 Proof.
-  unfold qdiv. assert (Hz : b == 0 <-> Qnum b = 0).
+  unfold qdivide. assert (Hz : b == 0 <-> Qnum b = 0).
   { unfold Qeq. cbn. rewrite Z.mul_1_r. tauto. }
   split.
   - intros H. apply Hz in H. rewrite H. reflexivity.
